@@ -62,6 +62,13 @@ def cells(tier):
             pre = ['0 <= o < %d' % len(OPERATIONS), 'len(c0) == 1', '32 <= ord(c0) <= 126']
             out.append(Cell(pid=PID, cid='C08/ea/t-%s/s-%s' % (tshape, sshape), harness='h_classify:ea_cell',
                             params=P, sym=sym, pre=pre, timeout=T, cost=2))
+    for tshape in ('s', 's+i', 'blank-s+blank-i', 'empty'):
+        for sshape in ('ids', 'iids', 'stories', 'items', 'empty'):
+            P = {'tshape': tshape, 'sshape': sshape, 'source_first': True}
+            sym = [('o', 'int'), ('c0', 'str')]
+            pre = ['0 <= o < %d' % len(OPERATIONS), 'len(c0) == 1', '32 <= ord(c0) <= 126']
+            out.append(Cell(pid=PID, cid='C08/ea/t-%s/s-%s/source-before-target' % (tshape, sshape), harness='h_classify:ea_cell',
+                            params=P, sym=sym, pre=pre, timeout=T, cost=2))
     for doc in DOCS:
         for part in ('prefix', 'suffix'):
             for by in (False, True):
